@@ -59,7 +59,16 @@ class CoherenceBroken(Exception):
 _EVALS = [0]
 
 
+_DEPTH = [0]        # nesting of public Table calls (see install_invariant)
+
+
 def coherent_internal_state(self):
+    if _DEPTH[0] > 1:
+        # a public method called by the library itself, e.g. the validation
+        # of a table that is being put together and may yet be refused: the
+        # state is not observable to a caller here.  The invariant is held
+        # at the boundary where callers stand: the outermost call.
+        return True
     _EVALS[0] += 1
     d = self.__dict__
     oi = d.get('_obs_index')
@@ -109,6 +118,31 @@ def install_invariant(ctx):
                                 len(self._obs_index or {}),
                                 len(self._sample_index or {}))))(
         biom.table.Table)
+    # depth bookkeeping around everything icontract wrapped
+    import functools
+    T = biom.table.Table
+
+    def deep(f):
+        @functools.wraps(f)
+        def w(*a, **k):
+            _DEPTH[0] += 1
+            try:
+                return f(*a, **k)
+            finally:
+                _DEPTH[0] -= 1
+        return w
+    for name, attr in list(vars(T).items()):
+        if isinstance(attr, property):
+            setattr(T, name, property(
+                deep(attr.fget) if attr.fget else None,
+                deep(attr.fset) if attr.fset else None, attr.fdel,
+                attr.__doc__))
+        elif callable(attr) and not isinstance(attr, (classmethod,
+                                                      staticmethod, type)):
+            if name.startswith('_') and not (name.startswith('__') and
+                                             name.endswith('__')):
+                continue
+            setattr(T, name, deep(attr))
 
 
 # ----------------------------------------------------------- the oracle
